@@ -241,6 +241,12 @@ func (c *Conn) Write(p []byte) (int, error) {
 			h.mu.Unlock()
 			return total, nil
 		}
+		// like a real net.Conn: a write deadline that has ALREADY passed fails the write at once, even
+		// if the peer's window has room (a deadline armed for an earlier write and never cleared)
+		if !wd.IsZero() && !time.Now().Before(wd) {
+			h.mu.Unlock()
+			return total, timeoutError{}
+		}
 		space := h.window - len(h.buf)
 		if space > 0 {
 			n := min(space, len(p))
